@@ -47,6 +47,7 @@ func genJoinCase(r *wire.Rng, n int, stream string, w *wire.Out) {
 	emit := func(toks ...string) { lines = append(lines, strings.Join(toks, " ")) }
 	emit(head...)
 	var subs []string
+	unsubbed := 0
 	nsub := 0
 	mkObj := func() Obj {
 		o := Obj{NS: wire.Pick(r, nss), Name: wire.Pick(r, pnames), Labels: genLabels(r, 30), Val: wire.Pick(r, vals)}
@@ -216,8 +217,14 @@ func genJoinCase(r *wire.Rng, n int, stream string, w *wire.Out) {
 		case x < 80:
 			jr.barrier()
 			emit("sync")
-		case x < 88:
+		case x < 86:
 			addSub(wire.Pick(r, []string{"single", "batch", "batch", "nostate"}))
+		case x < 88:
+			if unsubbed < len(subs) {
+				jr.barrier()
+				emit("junsub", subs[unsubbed])
+				unsubbed++
+			}
 		case x < 92:
 			queries()
 		default: // the same key changes in two sub-collections back to back
